@@ -40,6 +40,7 @@ func init() {
 			fragmentCreateAtomic(r)
 			compactionShape(r)
 			kvPutGrowsStore(r)
+			tableUpdateWritesVersion(r, "update-writes-version")
 		},
 	})
 }
